@@ -1,15 +1,20 @@
 import TxdbusModel.Wire.PyVal
 /-
-Code model of `sigFromPy` (txdbus/marshal.py:243-310, after repair 6ba9f66: a plain `int` selects
-'i' / 'x' / 't' by range).  Mirrors the order of the tests:
+Code model of `sigFromPy` (txdbus/marshal.py:243-310) after two repairs:
+  * 6ba9f66: a plain `int` selects 'i' / 'x' / 't' by range (F28);
+  * fixes/C19-01-dict-value-signature.patch: the dict rule takes the value signature from the FIRST
+    value - the one whose class `same` was judged against - instead of the last one.
+The code as it was before both repairs is `sigFromPyOrig` in Wire/InferOrig.lean (witnesses only).
+Mirrors the order of the tests:
 
   1. `getattr(pobj, 'dbusSignature', None)`   (wrapper classes, objects carrying the attribute)
   2. bool  3. int  4. float  5. str  6. bytearray
   7. list : `[]` -> 'av'; all later elements `isinstance(v, type(pobj[0]))` -> 'a' + sig(first); else 'av'
   8. tuple: '(' + concatenation of the element signatures + ')'      (the empty tuple gives '()')
   9. dict : `{}` -> 'a{sv}'; `vtype = type(first value)`; `same` iff every later value is an instance
-            of it; the signature is taken from the LAST `k, v` of the iteration (loop variables
-            after the loop): same -> 'a{' sig(k) sig(v) '}', else 'a{' sig(k) 'v}'.  Keys are never compared.
+            of it; the key signature is taken from the LAST key of the iteration (loop variable `k`
+            after the loop), the value signature from the FIRST value:
+            same -> 'a{' sig(k_last) sig(v_first) '}', else 'a{' sig(k_last) 'v}'.  Keys are never compared.
  10. anything else: MarshallingError.
 Core Lean only.
 -/
@@ -54,9 +59,14 @@ def sigFromPy : PyVal → Except PyErr (List Char)
     | .error e => .error e
   | .dict [] => .ok ['a', '{', 's', 'v', '}']
   | .dict ((k, v) :: rest) =>
-    match sigLastEntry (allValueInstances v.pyType rest) ((k, v) :: rest) with
-    | .ok s => .ok ('a' :: '{' :: (s ++ ['}']))
+    match sigLastKey ((k, v) :: rest) with
     | .error e => .error e
+    | .ok ks =>
+      if allValueInstances v.pyType rest then
+        match sigFromPy v with
+        | .error e => .error e
+        | .ok vs => .ok ('a' :: '{' :: (ks ++ vs ++ ['}']))
+      else .ok ('a' :: '{' :: (ks ++ ['v', '}']))
   | .obj _ (some s) _ => .ok s
   | .obj _ Option.none _ => .error .marshalling
   | .other _ => .error .marshalling
@@ -70,20 +80,11 @@ def sigConcat : List PyVal → Except PyErr (List Char)
       match sigConcat xs with
       | .error e => .error e
       | .ok r => .ok (s ++ r)
-/-- Signature of the entry from the loop variables left after `for k, v in pobj.items()`:
-the LAST item of the iteration. -/
-def sigLastEntry (same : Bool) : List (PyVal × PyVal) → Except PyErr (List Char)
+/-- `sigFromPy(k)` for the loop variable `k` left after `for k, v in pobj.items()`: the LAST key. -/
+def sigLastKey : List (PyVal × PyVal) → Except PyErr (List Char)
   | [] => .error .other     -- unreachable: called on non-empty item lists only
-  | [(k, v)] =>
-    match sigFromPy k with
-    | .error e => .error e
-    | .ok ks =>
-      if same then
-        match sigFromPy v with
-        | .error e => .error e
-        | .ok vs => .ok (ks ++ vs)
-      else .ok (ks ++ ['v'])
-  | _ :: p :: rest => sigLastEntry same (p :: rest)
+  | [(k, _)] => sigFromPy k
+  | _ :: p :: rest => sigLastKey (p :: rest)
 end
 
 end Txdbus
